@@ -98,6 +98,16 @@ SEEDS = {
  'C13-6': dict(f='seeded_c13_6.rs', **integ(PN_D + '/incentive', 'incentive', 'seeded_c13_6.rs')),
  'C09-5': dict(f='seeded_c09_5.rs', **integ('contracts/liquidity_hub/fee_distributor', 'fee_distributor', 'seeded_c09_5.rs')),
  'C09-6': dict(f='seeded_c09_6.rs', **integ('contracts/liquidity_hub/fee_distributor', 'fee_distributor', 'seeded_c09_6.rs')),
+ 'C05-5': dict(f='seeded_c05_5.rs', **integ('contracts/liquidity_hub/vault-network/vault', 'vault', 'seeded_c05_5.rs')),
+ 'C05-6': dict(f='seeded_c05_6.rs', **integ('contracts/liquidity_hub/vault-network/vault', 'vault', 'seeded_c05_6.rs')),
+ 'C10-5': dict(f='c10_seed5_distribution_asset_round_trip.rs', **integ('contracts/liquidity_hub/fee_collector', 'fee_collector', 'c10_seed5_distribution_asset_round_trip.rs')),
+ 'C10-6': dict(f='c10_seed6_take_rate_switched_off.rs', **integ('contracts/liquidity_hub/fee_collector', 'fee_collector', 'c10_seed6_take_rate_switched_off.rs')),
+ 'C11-5': dict(f='seeded_c11_5_demo.rs', **integ(PN_D + '/incentive', 'incentive', 'seeded_c11_5_demo.rs')),
+ 'C11-6': dict(f='seeded_c11_6_demo.rs', **integ(PN_D + '/frontend_helper', 'frontend-helper', 'seeded_c11_6_demo.rs')),
+ 'C12-5': dict(f='c12_seed5_demo.rs', **integ(PN_D + '/incentive', 'incentive', 'c12_seed5_demo.rs')),
+ 'C12-6': dict(f='c12_seed6_demo.rs', **integ(PN_D + '/incentive', 'incentive', 'c12_seed6_demo.rs')),
+ 'C16-5': dict(f='seeded_c16_5.rs', **integ('contracts/liquidity_hub/vault-network/vault_factory', 'vault_factory', 'seeded_c16_5.rs')),
+ 'C16-6': dict(f='seeded_c16_6.rs', **integ('contracts/liquidity_hub/whale_lair', 'whale-lair', 'seeded_c16_6.rs')),
 }
 try: SEEDS.update(json.load(open(V + '/seeded/extra_seeds.json')))
 except Exception: pass
@@ -178,6 +188,11 @@ EXTRA = {'C01-5': ['C07'], 'C06-5': ['C05'], 'C06-6': ['C07'], 'C17-4': ['C16'],
 
 
 NOTES = {
+ 'C10-5': 'missed at first: aggregation from a VAULT factory that lists a vault of the distribution asset, with a router that answers for the round-trip key, added',
+ 'C11-6': 'missed at first: helper deposit from a pre-state holding the TEMP_STATE another depositor left behind (same pair, any duration) added',
+ 'C12-6': 'missed by C12 at first (the obligation lived in the C13 check only): C12 got its own claim part (c12_claim.py, funded-amount bound from any claimed <= funded)',
+ 'C16-5': 'missed at first: factories with a REGISTERED child (creation history) added, so the symbolic caller may be that child',
+ 'C16-6': 'missed at first: every optional field of each UpdateConfig independently present/absent, and the blank-address states instantiate leaves (lair, collector), added',
  'C01-2': 'first masked by a too coarse C07 carve-out: carve-outs were sharpened to the exact known behaviour',
  'C05-1': 'missed by C05 at first: two-step flash_loan -> AfterTrade obligation added',
  'C05-2': 'first run inconclusive: checked_div_floor model added',
